@@ -952,7 +952,11 @@ func (b *Builder) PatchConfig() ([]byte, error) {
 		}
 		DemonConfig.AddWString(Config.Config.UserAgent)
 
-		if len(Config.Config.Headers) == 0 {
+		// work on a copy: Config points to the live listener, which other builds
+		// and the listener's own request check keep using
+		var Headers = append([]string{}, Config.Config.Headers...)
+
+		if len(Headers) == 0 {
 			if len(Config.Config.HostHeader) > 0 {
 				DemonConfig.AddInt(2)
 				DemonConfig.AddWString("Content-type: */*")
@@ -963,11 +967,11 @@ func (b *Builder) PatchConfig() ([]byte, error) {
 			}
 		} else {
 			if len(Config.Config.HostHeader) > 0 {
-				Config.Config.Headers = append(Config.Config.Headers, "Host: "+Config.Config.HostHeader)
+				Headers = append(Headers, "Host: "+Config.Config.HostHeader)
 			}
 
-			DemonConfig.AddInt(len(Config.Config.Headers))
-			for _, headers := range Config.Config.Headers {
+			DemonConfig.AddInt(len(Headers))
+			for _, headers := range Headers {
 				logger.Debug(headers)
 				DemonConfig.AddWString(headers)
 			}
